@@ -141,6 +141,15 @@ Theorem C18_disaggregate_unobservable_cell_vanishes : forall res_new n ws fields
 Proof. exact disagg_cell_unobservable. Qed.
 Print Assumptions C18_disaggregate_unobservable_cell_vanishes.
 
+(* a weight list whose sum is not 1 (|sum - 1| > 1e-12 in exact arithmetic, i.e. visibly not 1 in binary64: the
+   code tests `sum(w) == 1`) is refused with ValueError -- it is never applied unscaled *)
+Theorem C18_disaggregate_refuses_weight_sum : forall rt rn ws fields tf cells,
+  (rn < rt)%nat -> (rt mod rn = 0)%nat -> existsb (fun f => Units.mem_str f fields) tf = true ->
+  ~ Qabs (qsum ws - 1) <= wtol ->
+  disaggregate_experience rt rn (Some ws) fields tf cells = DCells (Err ValueError).
+Proof. exact disagg_refuses_weight_sum. Qed.
+Print Assumptions C18_disaggregate_refuses_weight_sum.
+
 (* known finding H3: a weight vector that passes the validation (entries in [0,1], sum 1) but whose observable
    prefix sums to zero makes the renormalisation divide by zero: the call raises instead of splitting the cell *)
 Theorem C18_disaggregate_zero_prefix_raises : forall res_new n ws fields c,
